@@ -12,3 +12,10 @@ import ImathVerif.Props.C02
 import ImathVerif.Props.C03
 import ImathVerif.Props.C19
 import ImathVerif.Props.C06
+import ImathVerif.Props.C07
+import ImathVerif.Props.C07GJ
+import ImathVerif.Props.C07Algo
+import ImathVerif.Props.C11
+import ImathVerif.Props.C13
+import ImathVerif.Props.C16
+import ImathVerif.Props.C10
